@@ -852,6 +852,12 @@ func (s *sess) plmnRow(which, axis string, fixed int, vary []int) {
 		e.Errs, e.Octs, e.Rt, e.Rto = []bool{}, [][]int{}, [][]int{}, [][]int{}
 	}
 	s.w.Emit(e)
+	// a row that panicked names no (MCC, MNC): each of its entries is observed once more as a row of its own
+	if pi != nil && !hang && len(vary) > 1 {
+		for _, v := range vary {
+			s.plmnRow(which, axis, fixed, []int{v})
+		}
+	}
 }
 
 // ---------------------------------------------------------------- cases
